@@ -342,10 +342,10 @@ theorem fdtDispatch_total (I : ObjIface σ) (s : State σ) (id : Nat) (f : FdtRe
     exact ⟨_, rfl⟩
 
 
-theorem pushFdtObj_total (I : ObjIface σ) (hI : I.CompleteSound) (s : State σ) (p : Pkt) (now : Int)
+theorem pushFdtObjP_total (I : ObjIface σ) (hI : I.CompleteSound) (s : State σ) (p : Pkt) (now : Int)
     (ans : FdtAns) (hn : TimeSane now) (hp : p.WF) (hall : AllFdt Good s) :
-    ∃ x, pushFdtObj I s p now ans = .ok x := by
-  unfold pushFdtObj
+    ∃ x, pushFdtObj' I s p now ans = .ok x := by
+  unfold pushFdtObj'
   cases hid : p.fdtId with
   | none =>
     simp only []
@@ -359,10 +359,10 @@ theorem pushFdtObj_total (I : ObjIface σ) (hI : I.CompleteSound) (s : State σ)
     · have he := fdtEntry_all I Good s id (good_new I id _ (hp.1 id hid)) hall
       split
       · exact ⟨_, rfl⟩
-      · have hgp : Good ((fdtEntry I s id).2.push I p now ans) := good_push I hI _ p now ans he.2.1 hp hn
-        have hupd : ∃ f', (if ((fdtEntry I s id).2.push I p now ans).st = FdtState.complete then
-              ((fdtEntry I s id).2.push I p now ans).updateExpired now
-            else Except.ok ((fdtEntry I s id).2.push I p now ans)) = .ok f' ∧ Good f' := by
+      · have hgp : Good ((fdtEntry I s id p).2.push I p now ans) := good_push I hI _ p now ans he.2.1 hp hn
+        have hupd : ∃ f', (if ((fdtEntry I s id p).2.push I p now ans).st = FdtState.complete then
+              ((fdtEntry I s id p).2.push I p now ans).updateExpired now
+            else Except.ok ((fdtEntry I s id p).2.push I p now ans)) = .ok f' ∧ Good f' := by
           split
           · obtain ⟨f', hf'⟩ := updateExpired_total _ now hgp hn
             exact ⟨f', hf', good_updateExpired _ f' now hgp hf'⟩
